@@ -419,6 +419,9 @@ impl super::DebugSession {
     }
 
     pub(super) fn handle_continue(&mut self, req: &DapRequest) -> anyhow::Result<()> {
+        if self.debugger.is_none() {
+            return self.send_err(req, "continue: debugger not initialized");
+        }
         self.begin_running();
 
         let thread_id = self.current_thread_id();
